@@ -186,6 +186,20 @@ where
     ctx.count_max("max_tree_size", n);
 }
 
+/// Creates the iterator under a guard (a panic while positioning it is a violation of its own) and walks it.
+macro_rules! run_it {
+    ($ctx:expr, $parent:expr, $start:expr, $name:expr, $exact:expr, $depth:expr, $only:expr, $it:expr, $reference:expr, $back:expr) => {{
+        let start = $start;
+        match guard(|| $it) {
+            Ok(it) => run($ctx, $parent, start, $name, $exact, $depth, $only, it, $reference, $back),
+            Err(msg) => {
+                let (p, s) = ($parent.clone(), start.clone());
+                $ctx.panic_violation(&format!("{}.create", $name), &msg, None, || serde_json::to_value(Case { parent: p, start: s, acts: vec![] }).unwrap());
+            }
+        }
+    }};
+}
+
 fn de<I: DoubleEndedIterator>(it: &mut I, act: Act) -> Option<I::Item> {
     match act {
         Act::NextBack => it.next_back(),
@@ -241,22 +255,22 @@ fn explore_parent(ctx: &mut Ctx, parent: &Parent, depth: usize, pos_depth: usize
                     if matches!(parent, Parent::BvLoaded(_)) {
                         bv = from_bytes(&to_bytes(&bv)).expect("harness: a serialized bitvector does not load (reported by C06)");
                     }
-                    if sel(&Start::Iter) { run(ctx, parent, Start::Iter, "BitVector.iter", true, depth, &only, bv.iter(), bools.clone(), Some(&de)); }
-                    if sel(&Start::OneIter) { run(ctx, parent, Start::OneIter, "BitVector.one_iter", true, depth, &only, bv.one_iter(), ones.clone(), Some(&de)); }
-                    if sel(&Start::ZeroIter) { run(ctx, parent, Start::ZeroIter, "BitVector.zero_iter", true, depth, &only, bv.zero_iter(), zeros.clone(), Some(&de)); }
+                    if sel(&Start::Iter) { run_it!(ctx, parent, Start::Iter, "BitVector.iter", true, depth, &only, bv.iter(), bools.clone(), Some(&de)); }
+                    if sel(&Start::OneIter) { run_it!(ctx, parent, Start::OneIter, "BitVector.one_iter", true, depth, &only, bv.one_iter(), ones.clone(), Some(&de)); }
+                    if sel(&Start::ZeroIter) { run_it!(ctx, parent, Start::ZeroIter, "BitVector.zero_iter", true, depth, &only, bv.zero_iter(), zeros.clone(), Some(&de)); }
                     for &r in &starts_r {
                         let s = Start::SelectIter(r);
-                        if sel(&s) { run(ctx, parent, s, "BitVector.select_iter", true, pos_depth, &only, bv.select_iter(r), ones.get(r..).unwrap_or(&[]).to_vec(), Some(&de)); }
+                        if sel(&s) { run_it!(ctx, parent, s, "BitVector.select_iter", true, pos_depth, &only, bv.select_iter(r), ones.get(r..).unwrap_or(&[]).to_vec(), Some(&de)); }
                     }
                     for &r in &starts_z {
                         let s = Start::SelectZeroIter(r);
-                        if sel(&s) { run(ctx, parent, s, "BitVector.select_zero_iter", true, pos_depth, &only, bv.select_zero_iter(r), zeros.get(r..).unwrap_or(&[]).to_vec(), Some(&de)); }
+                        if sel(&s) { run_it!(ctx, parent, s, "BitVector.select_zero_iter", true, pos_depth, &only, bv.select_zero_iter(r), zeros.get(r..).unwrap_or(&[]).to_vec(), Some(&de)); }
                     }
                     for &v in &starts_v {
                         let s = Start::Pred(v);
-                        if sel(&s) { run(ctx, parent, s, "BitVector.predecessor", true, pos_depth, &only, bv.predecessor(v), pred_ref(v), Some(&de)); }
+                        if sel(&s) { run_it!(ctx, parent, s, "BitVector.predecessor", true, pos_depth, &only, bv.predecessor(v), pred_ref(v), Some(&de)); }
                         let s = Start::Succ(v);
-                        if sel(&s) { run(ctx, parent, s, "BitVector.successor", true, pos_depth, &only, bv.successor(v), succ_ref(v), Some(&de)); }
+                        if sel(&s) { run_it!(ctx, parent, s, "BitVector.successor", true, pos_depth, &only, bv.successor(v), succ_ref(v), Some(&de)); }
                     }
                 }
                 Parent::Sparse(_) | Parent::SparseLoaded(_) => {
@@ -264,22 +278,22 @@ fn explore_parent(ctx: &mut Ctx, parent: &Parent, depth: usize, pos_depth: usize
                     if matches!(parent, Parent::SparseLoaded(_)) {
                         sv = from_bytes(&to_bytes(&sv)).expect("harness: a serialized sparse vector does not load (reported by C06)");
                     }
-                    if sel(&Start::Iter) { run(ctx, parent, Start::Iter, "SparseVector.iter", true, depth, &only, sv.iter(), bools.clone(), Some(&de)); }
-                    if sel(&Start::OneIter) { run(ctx, parent, Start::OneIter, "SparseVector.one_iter", true, depth, &only, sv.one_iter(), ones.clone(), Some(&de)); }
-                    if sel(&Start::ZeroIter) { run(ctx, parent, Start::ZeroIter, "SparseVector.zero_iter", true, depth, &only, sv.zero_iter(), zeros.clone(), None); }
+                    if sel(&Start::Iter) { run_it!(ctx, parent, Start::Iter, "SparseVector.iter", true, depth, &only, sv.iter(), bools.clone(), Some(&de)); }
+                    if sel(&Start::OneIter) { run_it!(ctx, parent, Start::OneIter, "SparseVector.one_iter", true, depth, &only, sv.one_iter(), ones.clone(), Some(&de)); }
+                    if sel(&Start::ZeroIter) { run_it!(ctx, parent, Start::ZeroIter, "SparseVector.zero_iter", true, depth, &only, sv.zero_iter(), zeros.clone(), None); }
                     for &r in &starts_r {
                         let s = Start::SelectIter(r);
-                        if sel(&s) { run(ctx, parent, s, "SparseVector.select_iter", true, pos_depth, &only, sv.select_iter(r), ones.get(r..).unwrap_or(&[]).to_vec(), Some(&de)); }
+                        if sel(&s) { run_it!(ctx, parent, s, "SparseVector.select_iter", true, pos_depth, &only, sv.select_iter(r), ones.get(r..).unwrap_or(&[]).to_vec(), Some(&de)); }
                     }
                     for &r in &starts_z {
                         let s = Start::SelectZeroIter(r);
-                        if sel(&s) { run(ctx, parent, s, "SparseVector.select_zero_iter", true, pos_depth, &only, sv.select_zero_iter(r), zeros.get(r..).unwrap_or(&[]).to_vec(), None); }
+                        if sel(&s) { run_it!(ctx, parent, s, "SparseVector.select_zero_iter", true, pos_depth, &only, sv.select_zero_iter(r), zeros.get(r..).unwrap_or(&[]).to_vec(), None); }
                     }
                     for &v in &starts_v {
                         let s = Start::Pred(v);
-                        if sel(&s) { run(ctx, parent, s, "SparseVector.predecessor", true, pos_depth, &only, sv.predecessor(v), pred_ref(v), Some(&de)); }
+                        if sel(&s) { run_it!(ctx, parent, s, "SparseVector.predecessor", true, pos_depth, &only, sv.predecessor(v), pred_ref(v), Some(&de)); }
                         let s = Start::Succ(v);
-                        if sel(&s) { run(ctx, parent, s, "SparseVector.successor", true, pos_depth, &only, sv.successor(v), succ_ref(v), Some(&de)); }
+                        if sel(&s) { run_it!(ctx, parent, s, "SparseVector.successor", true, pos_depth, &only, sv.successor(v), succ_ref(v), Some(&de)); }
                     }
                 }
                 _ => {
@@ -288,23 +302,23 @@ fn explore_parent(ctx: &mut Ctx, parent: &Parent, depth: usize, pos_depth: usize
                         rl = from_bytes(&to_bytes(&rl)).expect("harness: a serialized run-length vector does not load (reported by C06)");
                     }
                     let runs: Vec<(usize, usize)> = m.runs.iter().map(|&(s, l)| (s as usize, l as usize)).collect();
-                    if sel(&Start::Iter) { run(ctx, parent, Start::Iter, "RLVector.iter", true, depth, &only, rl.iter(), bools.clone(), None); }
-                    if sel(&Start::OneIter) { run(ctx, parent, Start::OneIter, "RLVector.one_iter", true, depth, &only, rl.one_iter(), ones.clone(), None); }
-                    if sel(&Start::ZeroIter) { run(ctx, parent, Start::ZeroIter, "RLVector.zero_iter", true, depth, &only, rl.zero_iter(), zeros.clone(), None); }
-                    if sel(&Start::RunIter) { run(ctx, parent, Start::RunIter, "RLVector.run_iter", false, depth, &only, rl.run_iter(), runs, None); }
+                    if sel(&Start::Iter) { run_it!(ctx, parent, Start::Iter, "RLVector.iter", true, depth, &only, rl.iter(), bools.clone(), None); }
+                    if sel(&Start::OneIter) { run_it!(ctx, parent, Start::OneIter, "RLVector.one_iter", true, depth, &only, rl.one_iter(), ones.clone(), None); }
+                    if sel(&Start::ZeroIter) { run_it!(ctx, parent, Start::ZeroIter, "RLVector.zero_iter", true, depth, &only, rl.zero_iter(), zeros.clone(), None); }
+                    if sel(&Start::RunIter) { run_it!(ctx, parent, Start::RunIter, "RLVector.run_iter", false, depth, &only, rl.run_iter(), runs, None); }
                     for &r in &starts_r {
                         let s = Start::SelectIter(r);
-                        if sel(&s) { run(ctx, parent, s, "RLVector.select_iter", true, pos_depth, &only, rl.select_iter(r), ones.get(r..).unwrap_or(&[]).to_vec(), None); }
+                        if sel(&s) { run_it!(ctx, parent, s, "RLVector.select_iter", true, pos_depth, &only, rl.select_iter(r), ones.get(r..).unwrap_or(&[]).to_vec(), None); }
                     }
                     for &r in &starts_z {
                         let s = Start::SelectZeroIter(r);
-                        if sel(&s) { run(ctx, parent, s, "RLVector.select_zero_iter", true, pos_depth, &only, rl.select_zero_iter(r), zeros.get(r..).unwrap_or(&[]).to_vec(), None); }
+                        if sel(&s) { run_it!(ctx, parent, s, "RLVector.select_zero_iter", true, pos_depth, &only, rl.select_zero_iter(r), zeros.get(r..).unwrap_or(&[]).to_vec(), None); }
                     }
                     for &v in &starts_v {
                         let s = Start::Pred(v);
-                        if sel(&s) { run(ctx, parent, s, "RLVector.predecessor", true, pos_depth, &only, rl.predecessor(v), pred_ref(v), None); }
+                        if sel(&s) { run_it!(ctx, parent, s, "RLVector.predecessor", true, pos_depth, &only, rl.predecessor(v), pred_ref(v), None); }
                         let s = Start::Succ(v);
-                        if sel(&s) { run(ctx, parent, s, "RLVector.successor", true, pos_depth, &only, rl.successor(v), succ_ref(v), None); }
+                        if sel(&s) { run_it!(ctx, parent, s, "RLVector.successor", true, pos_depth, &only, rl.successor(v), succ_ref(v), None); }
                     }
                 }
             }
@@ -314,45 +328,45 @@ fn explore_parent(ctx: &mut Ctx, parent: &Parent, depth: usize, pos_depth: usize
             let sv = catalogue::sparse_multiset(*universe, values);
             let all: Vec<(usize, usize)> = values.iter().copied().enumerate().collect();
             let bools: Vec<bool> = (0..*universe).map(|i| ms.get(i)).collect();
-            if sel(&Start::Iter) { run(ctx, parent, Start::Iter, "SparseVector(multiset).iter", true, depth, &only, sv.iter(), bools, Some(&de)); }
-            if sel(&Start::OneIter) { run(ctx, parent, Start::OneIter, "SparseVector(multiset).one_iter", true, depth, &only, sv.one_iter(), all.clone(), Some(&de)); }
+            if sel(&Start::Iter) { run_it!(ctx, parent, Start::Iter, "SparseVector(multiset).iter", true, depth, &only, sv.iter(), bools, Some(&de)); }
+            if sel(&Start::OneIter) { run_it!(ctx, parent, Start::OneIter, "SparseVector(multiset).one_iter", true, depth, &only, sv.one_iter(), all.clone(), Some(&de)); }
             for r in 0..=values.len() + 1 {
                 let s = Start::SelectIter(r);
-                if sel(&s) { run(ctx, parent, s, "SparseVector(multiset).select_iter", true, pos_depth, &only, sv.select_iter(r), all.get(r..).unwrap_or(&[]).to_vec(), Some(&de)); }
+                if sel(&s) { run_it!(ctx, parent, s, "SparseVector(multiset).select_iter", true, pos_depth, &only, sv.select_iter(r), all.get(r..).unwrap_or(&[]).to_vec(), Some(&de)); }
             }
             for v in 0..=*universe + 1 {
                 let s = Start::Pred(v);
-                if sel(&s) { run(ctx, parent, s, "SparseVector(multiset).predecessor", true, pos_depth, &only, sv.predecessor(v), match ms.pred(v) { Some((r, _)) => all[r..].to_vec(), None => vec![] }, Some(&de)); }
+                if sel(&s) { run_it!(ctx, parent, s, "SparseVector(multiset).predecessor", true, pos_depth, &only, sv.predecessor(v), match ms.pred(v) { Some((r, _)) => all[r..].to_vec(), None => vec![] }, Some(&de)); }
                 let s = Start::Succ(v);
-                if sel(&s) { run(ctx, parent, s, "SparseVector(multiset).successor", true, pos_depth, &only, sv.successor(v), match ms.succ(v) { Some((r, _)) => all[r..].to_vec(), None => vec![] }, Some(&de)); }
+                if sel(&s) { run_it!(ctx, parent, s, "SparseVector(multiset).successor", true, pos_depth, &only, sv.successor(v), match ms.succ(v) { Some((r, _)) => all[r..].to_vec(), None => vec![] }, Some(&de)); }
             }
         }
         Parent::Int { width, values } => {
             let iv: IntVector = catalogue::int_vector(*width, values);
-            if sel(&Start::Iter) { run(ctx, parent, Start::Iter, "IntVector.iter", true, depth, &only, iv.iter(), values.clone(), Some(&de)); }
-            if sel(&Start::IntoIter) { run(ctx, parent, Start::IntoIter, "IntVector.into_iter", true, depth, &only, iv.clone().into_iter(), values.clone(), None); }
+            if sel(&Start::Iter) { run_it!(ctx, parent, Start::Iter, "IntVector.iter", true, depth, &only, iv.iter(), values.clone(), Some(&de)); }
+            if sel(&Start::IntoIter) { run_it!(ctx, parent, Start::IntoIter, "IntVector.into_iter", true, depth, &only, iv.clone().into_iter(), values.clone(), None); }
         }
         Parent::Wm(values) => {
             let wm = WaveletMatrix::from(values.clone());
             let n = values.len();
-            if sel(&Start::Iter) { run(ctx, parent, Start::Iter, "WaveletMatrix.iter", true, depth, &only, wm.iter(), values.clone(), Some(&de)); }
-            if sel(&Start::IntoIter) { run(ctx, parent, Start::IntoIter, "WaveletMatrix.into_iter", true, depth, &only, wm.clone().into_iter(), values.clone(), None); }
+            if sel(&Start::Iter) { run_it!(ctx, parent, Start::Iter, "WaveletMatrix.iter", true, depth, &only, wm.iter(), values.clone(), Some(&de)); }
+            if sel(&Start::IntoIter) { run_it!(ctx, parent, Start::IntoIter, "WaveletMatrix.into_iter", true, depth, &only, wm.clone().into_iter(), values.clone(), None); }
             let max = values.iter().copied().max().unwrap_or(0);
             for v in 0..=max + 1 {
                 let occ: Vec<(usize, usize)> = values.iter().enumerate().filter(|(_, &x)| x == v).map(|(i, _)| i).enumerate().collect();
                 let s = Start::ValueIter(v);
-                if sel(&s) { run(ctx, parent, s, "WaveletMatrix.value_iter", false, depth, &only, wm.value_iter(v), occ.clone(), None); }
+                if sel(&s) { run_it!(ctx, parent, s, "WaveletMatrix.value_iter", false, depth, &only, wm.value_iter(v), occ.clone(), None); }
                 for r in 0..=occ.len() + 1 {
                     let s = Start::WmSelectIter(r, v);
-                    if sel(&s) { run(ctx, parent, s, "WaveletMatrix.select_iter", false, pos_depth, &only, wm.select_iter(r, v), occ.get(r..).unwrap_or(&[]).to_vec(), None); }
+                    if sel(&s) { run_it!(ctx, parent, s, "WaveletMatrix.select_iter", false, pos_depth, &only, wm.select_iter(r, v), occ.get(r..).unwrap_or(&[]).to_vec(), None); }
                 }
                 for i in 0..=n + 1 {
                     let p = occ.iter().rposition(|&(_, p)| p <= i);
                     let s = Start::WmPred(i, v);
-                    if sel(&s) { run(ctx, parent, s, "WaveletMatrix.predecessor", false, pos_depth, &only, wm.predecessor(i, v), p.map(|r| occ[r..].to_vec()).unwrap_or_default(), None); }
+                    if sel(&s) { run_it!(ctx, parent, s, "WaveletMatrix.predecessor", false, pos_depth, &only, wm.predecessor(i, v), p.map(|r| occ[r..].to_vec()).unwrap_or_default(), None); }
                     let q = occ.iter().position(|&(_, p)| p >= i);
                     let s = Start::WmSucc(i, v);
-                    if sel(&s) { run(ctx, parent, s, "WaveletMatrix.successor", false, pos_depth, &only, wm.successor(i, v), q.map(|r| occ[r..].to_vec()).unwrap_or_default(), None); }
+                    if sel(&s) { run_it!(ctx, parent, s, "WaveletMatrix.successor", false, pos_depth, &only, wm.successor(i, v), q.map(|r| occ[r..].to_vec()).unwrap_or_default(), None); }
                 }
             }
         }
